@@ -257,7 +257,8 @@ def render_scenarios():
     base = {"config": {}, "request": {"method": "GET", "uri": "/bkt/key", "headers": []}}
     return [dict(base, backend={"result": "err:NoSuchKey", "message": "gone & <lost>", "request_id": "RID-1"}),
             dict(base, backend={"result": "err:NoSuchKey", "no_message": True}),
-            dict(base, backend={"result": "err:AccessDenied", "err_status": 418, "err_headers": [["x-extra", "1"], ["retry-after", "5"]]}),
+            dict(base, backend={"result": "err:AccessDenied", "err_status": 418, "err_headers": [["x-extra", "1"], ["retry-after", "5"],
+                                                                                           ["www-authenticate", "A"], ["www-authenticate", "B"]]}),
             dict(base, backend={"result": "err:ZzCustomCode", "message": "m"}),
             dict(base, backend={"result": "err:SlowDown"})]
 
@@ -271,8 +272,9 @@ def confirm_render(rep):
     for (st, frag), o in zip(exp, outs):
         if o.get("status") != st or frag not in o.get("body_text", ""):
             return {"expected": [st, frag], "got": [o.get("status"), o.get("body_text", "")[:200]]}
-    if dict(outs[2].get("headers", [])).get("x-extra") != "1":
-        return {"expected": "x-extra header of the error", "got": outs[2].get("headers")}
+    if dict(outs[2].get("headers", [])).get("x-extra") != "1" or \
+            sorted(v for k, v in outs[2].get("headers", []) if k == "www-authenticate") != ["A", "B"]:
+        return {"expected": "every header the backend attached to the error (incl. a repeated name)", "got": outs[2].get("headers")}
     return None
 
 
@@ -316,8 +318,20 @@ def funnel(rep):
                        "rsx+z3", "holds", time.time() - t0)
     for k, v in allbad.items():
         res = rep.violation("funnel:" + k, "ops::call: %s (%s)" % (k, v), rep.save_cex("funnel_" + re.sub(r"[^A-Za-z0-9]+", "_", k)[:50], {"what": k, "detail": v}),
-                            confirmed=False)
+                            confirmed=funnel_confirm(rep))
         rep.obligation("funnel " + k, "rsx+z3", res, 0)
+
+
+def funnel_confirm(rep):
+    """native: failing hooks / routes must still yield HTTP responses"""
+    scs = []
+    for cfg in ({"route": "match"}, {"auth": {"AK": "SK"}, "route": "match"}, {"auth": {"AK": "SK"}, "route": "match:deny"},
+                {"auth": {"AK": "SK"}, "access": "deny"}, {"auth": {"AK": "SK"}, "access": "deny_typed"}, {"auth": {"AK": "SK"}}):
+        for m, u in (("GET", "/bkt/key"), ("POST", "/"), ("PUT", "/bkt")):
+            scs.append({"config": cfg, "request": {"method": m, "uri": u, "headers": []}})
+    outs = replay.run_scenarios(scs)
+    rep.traces_validated += len(scs)
+    return any(o.get("transport_error") or o.get("panic") is not None for o in outs)
 
 
 def malformed_family(rep):
@@ -346,7 +360,8 @@ def malformed_family(rep):
         add("POST", "/bkt?delete", [("content-length", str(len(b)))], b)
         add("PUT", "/bkt/k?tagging", [("content-length", str(len(b)))], b)
         add("POST", "/bkt", [("content-type", "multipart/form-data; boundary=b"), ("content-length", str(len(b)))], b)
-    cfgs = [{}, {"auth": {"AK": "SK"}}, {"auth": {"AK": "SK"}, "access": "allow", "host": ["example.com"]}, {"route": "nomatch", "host": ["a.b", "c.d"]}]
+    cfgs = [{}, {"auth": {"AK": "SK"}}, {"auth": {"AK": "SK"}, "access": "allow", "host": ["example.com"]}, {"route": "nomatch", "host": ["a.b", "c.d"]},
+            {"route": "match"}, {"auth": {"AK": "SK"}, "route": "match:deny"}, {"auth": {"AK": "SK"}, "access": "deny"}, {"auth": {"AK": "SK"}, "access": "deny_typed"}]
     scs = [{"config": c, "request": r} for c in cfgs for r in reqs]
     outs = replay.run_scenarios(scs, profile="debug")
     bad = []
